@@ -12,6 +12,7 @@ import (
 	"hash/fnv"
 	"math/rand"
 	"net"
+	"strconv"
 	"strings"
 	"sync"
 	"sync/atomic"
@@ -188,6 +189,9 @@ type server struct {
 	conns  sync.Map
 }
 
+// serverIP: the loopback address scripted servers listen on ("::1" for the IPv6 phases)
+var serverIP = "127.0.0.1"
+
 func newServer(name string, sc script, udp, tcp bool) *server {
 	s := &server{name: name, sc: sc}
 	for try := 0; ; try++ {
@@ -195,7 +199,7 @@ func newServer(name string, sc script, udp, tcp bool) *server {
 		var uc *net.UDPConn
 		if udp {
 			var err error
-			uc, err = net.ListenUDP("udp", &net.UDPAddr{IP: net.IPv4(127, 0, 0, 1)})
+			uc, err = net.ListenUDP("udp", &net.UDPAddr{IP: net.ParseIP(serverIP)})
 			if err != nil {
 				panic(err)
 			}
@@ -203,7 +207,7 @@ func newServer(name string, sc script, udp, tcp bool) *server {
 			s.addr = uc.LocalAddr().String()
 		}
 		if tcp {
-			l, err := net.Listen("tcp", fmt.Sprintf("127.0.0.1:%d", port))
+			l, err := net.Listen("tcp", net.JoinHostPort(serverIP, strconv.Itoa(port)))
 			if err != nil {
 				// the TCP port with the UDP socket's number is taken (ephemeral ports of outgoing connections)
 				if uc != nil {
